@@ -81,8 +81,8 @@ def gen_delta(rng):
 
 def gen_improve(rng):
     n = rng.randint(1, 6)
-    r, _maxb, _wit = dense_vector(rng, n)
-    return dict(r=r, cost_matrix_1d=dyadic_table(rng, n), n=n)
+    r, maxb, wit = dense_vector(rng, n)
+    return dict(r=r, cost_matrix_1d=dyadic_table(rng, n), n=n, maxb0=maxb, wit0=wit + [0, 0])
 
 
 def gen_bio(rng):
@@ -97,6 +97,10 @@ def gen_bio(rng):
 
 def register(reg):
     # ------------------------------------------------------------------------------------------------------------------
+    # witness of density after _change_bucket: which element has new bucket id b
+    reg.spec("def chg_wit(wit, mate, old_pos, alone, b):\n"
+             "    return wit[ite(b < old_pos, b, b + 1)] if alone == 1 else ite(b == old_pos, mate, wit[b])",
+             dict(wit=Arr(Int), mate=Int, old_pos=Int, alone=Int, b=Int), Int, opaque=True)
     reg.spec("def r_after_set(r0, element, new_pos, j):\n    return new_pos if j == element else r0[j]",
              dict(r0=Arr(Int), element=Int, new_pos=Int, j=Int), Int)
 
@@ -113,10 +117,8 @@ def register(reg):
             "joined": "forall(lambda j: implies(j != element, (r[j] == r[element]) == (old(r)[j] == new_pos) and "
                       "(r[j] < r[element]) == (old(r)[j] < new_pos)), 0, n)",
             "dense_range": "forall(lambda j: 0 <= r[j] <= maxb - alone_in_old_bucket, 0, n)",
-            "dense_wit": "forall(lambda b: r[ite(alone_in_old_bucket == 1, wit[ite(b < old_pos, b, b + 1)], "
-                         "ite(b == old_pos, mate, wit[b]))] == b and 0 <= ite(alone_in_old_bucket == 1, "
-                         "wit[ite(b < old_pos, b, b + 1)], ite(b == old_pos, mate, wit[b])) < n, "
-                         "0, maxb - alone_in_old_bucket + 1)",
+            "dense_wit": "forall(lambda b: 0 <= chg_wit(wit, mate, old_pos, alone_in_old_bucket, b) < n and "
+                         "r[chg_wit(wit, mate, old_pos, alone_in_old_bucket, b)] == b, 0, maxb - alone_in_old_bucket + 1)",
         },
         loops={1: dict(inv={
             "done": "forall(lambda j: r[j] == r_after_set(old(r), element, new_pos, j) - "
@@ -165,7 +167,7 @@ def register(reg):
         "           if alone == 1 else"
         "           ite(b < new_pos, ite(b == old_pos, mate, wit[b]), ite(b == new_pos, element,"
         "               ite(b - 1 == old_pos, mate, wit[b - 1])))",
-        dict(wit=Arr(Int), mate=Int, element=Int, old_pos=Int, new_pos=Int, alone=Int, b=Int), Int)
+        dict(wit=Arr(Int), mate=Int, element=Int, old_pos=Int, new_pos=Int, alone=Int, b=Int), Int, opaque=True)
 
     # ------------------------------------------------------------------------------------------------------------------
     # prefix sums of the "difference arrays": cumr = sum over (B, x], cuml = sum over [x, B)
@@ -336,20 +338,51 @@ def register(reg):
     reg.lemma("idx_bound", dict(a=Int, b=Int, n=Int), "3*n*a + 3*b >= 0 and 3*n*a + 3*b + 2 < 3*n*n",
               props=["C04", "C08", "C09"], requires={"a": "0 <= a < n", "b": "0 <= b < n"})
 
+    reg.lemma("nl_bound", dict(n=Int, t=Int), "n * t <= n * (n - 1) and n * t >= 0", props=["C08", "C09", "C04"],
+              requires={"t": "0 <= t < n"})
+    reg.lemma("CH_own_zero", dict(r=Arr(Int), c=Arr(Real), t=Int, B=Int, n=Int, m=Int), "CH(r, c, t, B, n, m, B) == 0",
+              props=["C08", "C09"], induction="m", base="0")
+
+    SWEEP_INV = {
+        "mx_range": "forall(lambda j: 0 <= r[j] <= max_id_bucket, 0, n)",
+        "mx_wit": "forall(lambda b: 0 <= wit[b] < n and r[wit[b]] == b, 0, max_id_bucket + 1)",
+        "mx_nonneg": "max_id_bucket >= 0",
+        "nonpos": "delta_dist <= 0",
+        "term01": "terminated == 0 or terminated == 1",
+    }
     reg.contract(
-        F + "_improve_one_ranking", props=["C08", "C09", "C04"],
+        F + "_improve_one_ranking", props=["C08", "C09", "C04", "C03"],
         params=dict(r=Arr(Int), cost_matrix_1d=Arr(Real), n=Int), returns=Real,
+        ghost=dict(maxb0=Int, wit0=Arr(Int)),
         requires={"len": "len(r) == n and n >= 1", "len_c": "len(cost_matrix_1d) == 3 * n * n",
-                  "range": "forall(lambda j: 0 <= r[j] <= n - 1, 0, n)"},
+                  "range": "forall(lambda j: 0 <= r[j] <= maxb0, 0, n)",
+                  "wit": "forall(lambda b: 0 <= wit0[b] < n and r[wit0[b]] == b, 0, maxb0 + 1)"},
         modifies=["r"],
-        ensures={},
-        assumed={
+        ghost_vars={"wit": "wit0"},
+        ensures={
             "range": "forall(lambda j: 0 <= r[j] <= n - 1, 0, n)",
+            "dense": "forall(lambda b: implies(exists(lambda j: r[j] >= b, 0, n), exists(lambda j: r[j] == b, 0, n)), 0, n)",
             "nonpos": "result <= 0",
+        },
+        assumed={
             "delta": "result == SC(r, 0, cost_matrix_1d, n, n) - SC(old(r), 0, cost_matrix_1d, n, n)",
         },
+        loops={1: dict(inv=SWEEP_INV), 2: dict(inv=SWEEP_INV)},
+        hints={2: ["dense_bound(r, n, max_id_bucket, wit)", "nl_bound(n, elem)",
+                   "CH_own_zero(r, cost_matrix_1d, elem, r[elem], n, n)"]},
+        exit_hints={1: ["dense_bound(r, n, max_id_bucket, wit)"]},
+        call_ghost={
+            ("_compute_delta_costs", "maxb"): "max_id_bucket",
+            ("_change_bucket", "maxb"): "max_id_bucket", ("_change_bucket", "wit"): "wit",
+            ("_change_bucket", "mate"): "choose(lambda j: j != elem and r[j] == bucket_elem, 0, n)",
+            ("_add_bucket", "maxb"): "max_id_bucket", ("_add_bucket", "wit"): "wit",
+            ("_add_bucket", "mate"): "choose(lambda j: j != elem and r[j] == bucket_elem, 0, n)",
+        },
+        ghost_after={
+            "_change_bucket": {"wit": "lam(lambda b: chg_wit(wit, g_mate, bucket_elem, alone, b))"},
+            "_add_bucket": {"wit": "lam(lambda b: add_wit(wit, g_mate, elem, bucket_elem, to, alone, b))"},
+        },
         gen=lambda rng: gen_improve(rng),
-        notes="composition contract: see the sweep obligations",
     )
 
     reg.contract(
